@@ -177,8 +177,11 @@ def _apply_contract_tail(ctx, c, fn, target, ns, ghosts):
             ctx.prove("%s/effect-consistent@%s#%s" % (ctx.proof_label, c.short, nm),
                       ctx.as_goal(ctx.call_spec(f, ns3)))
         else:
+            val = ctx.call_spec(f, ns3)
+            if val is False:
+                raise PathEnd()       # typed-case analysis: this outcome cannot occur for these argument kinds
             try:
-                ctx.assume(ctx.as_goal(ctx.call_spec(f, ns3)))
+                ctx.assume(ctx.as_goal(val))
             except PathEnd:
                 # vacuity guard: a callee postcondition that contradicts the caller's path means the
                 # contract (frame / result shape) does not fit this call -- never a silent dead path
@@ -237,7 +240,9 @@ def open_dict_of(ctx, ns, path, excluded=()):
     for p in parts[1:]:
         cur = ctx.getattr_(cur, p)
     known = cur.idict.known if isinstance(cur.idict, SymDict) else cur.idict
-    keep = {k: v for k, v in known.items() if isinstance(k, str) and k.startswith("_")}
+    # the NAMED-AVP entries are the keys the containers generate: '<name>_avp' / '<name>_avp__<n>'
+    keep = {k: v for k, v in known.items()
+            if isinstance(k, str) and not ("_avp" in k and k != "_avps")}
     cur.idict = SymDict(keep, rest=True, excluded=set(keep) | set(excluded))
 
 
